@@ -36,7 +36,10 @@ from _gettsim.shared import (
     get_names_of_arguments_without_defaults,
     remove_group_suffix,
 )
-from _gettsim.time_conversion import create_time_conversion_functions
+from _gettsim.time_conversion import (
+    _create_time_conversion_functions,
+    create_time_conversion_functions,
+)
 
 if TYPE_CHECKING:
     from collections.abc import Callable
@@ -661,6 +664,14 @@ def _create_aggregate_by_p_id_functions(
         if (
             agg_by_p_id_spec["source_col"] in user_and_internal_functions
             or agg_by_p_id_spec["source_col"] in data_cols
+            # The source column may be provided in another time unit; it is then
+            # derived from that data column by the time conversion functions.
+            or any(
+                col in data_cols
+                for col in _create_time_conversion_functions(
+                    agg_by_p_id_spec["source_col"]
+                )
+            )
         )
     }
 
